@@ -5,11 +5,15 @@ package atomic
 
 import "verif/vs"
 
-type base struct{ obj *vs.Obj }
+type base struct {
+	obj *vs.Obj
+	ver uint64 // bumped on every write (spin detector: a write is progress)
+}
 
 func (b *base) step() bool {
 	if b.obj == nil {
 		b.obj = vs.NewObj("atomic")
+		b.obj.State = func() uint64 { return b.ver }
 	}
 	vs.Point(vs.KAtomic, b.obj, nil)
 	if vs.Aborting() {
@@ -29,6 +33,7 @@ func (a *Bool) Load() bool { a.step(); return a.v }
 func (a *Bool) Store(v bool) {
 	if a.step() {
 		a.v = v
+		a.ver++
 	}
 }
 func (a *Bool) Swap(v bool) bool {
@@ -37,6 +42,7 @@ func (a *Bool) Swap(v bool) bool {
 	}
 	o := a.v
 	a.v = v
+	a.ver++
 	return o
 }
 func (a *Bool) CompareAndSwap(o, n bool) bool {
@@ -45,6 +51,7 @@ func (a *Bool) CompareAndSwap(o, n bool) bool {
 	}
 	if a.v == o {
 		a.v = n
+		a.ver++
 		return true
 	}
 	return false
@@ -59,11 +66,13 @@ func (a *Int64) Load() int64 { a.step(); return a.v }
 func (a *Int64) Store(v int64) {
 	if a.step() {
 		a.v = v
+		a.ver++
 	}
 }
 func (a *Int64) Add(d int64) int64 {
 	if a.step() {
 		a.v += d
+		a.ver++
 	}
 	return a.v
 }
@@ -73,6 +82,7 @@ func (a *Int64) Swap(v int64) int64 {
 	}
 	o := a.v
 	a.v = v
+	a.ver++
 	return o
 }
 func (a *Int64) CompareAndSwap(o, n int64) bool {
@@ -81,6 +91,7 @@ func (a *Int64) CompareAndSwap(o, n int64) bool {
 	}
 	if a.v == o {
 		a.v = n
+		a.ver++
 		return true
 	}
 	return false
@@ -95,11 +106,13 @@ func (a *Int32) Load() int32 { a.step(); return a.v }
 func (a *Int32) Store(v int32) {
 	if a.step() {
 		a.v = v
+		a.ver++
 	}
 }
 func (a *Int32) Add(d int32) int32 {
 	if a.step() {
 		a.v += d
+		a.ver++
 	}
 	return a.v
 }
@@ -109,6 +122,7 @@ func (a *Int32) Swap(v int32) int32 {
 	}
 	o := a.v
 	a.v = v
+	a.ver++
 	return o
 }
 func (a *Int32) CompareAndSwap(o, n int32) bool {
@@ -117,6 +131,7 @@ func (a *Int32) CompareAndSwap(o, n int32) bool {
 	}
 	if a.v == o {
 		a.v = n
+		a.ver++
 		return true
 	}
 	return false
@@ -138,6 +153,7 @@ func (a *Value) Store(v any) {
 	a.check(v)
 	if a.step() {
 		a.v = v
+		a.ver++
 	}
 }
 func (a *Value) Swap(v any) any {
@@ -147,6 +163,7 @@ func (a *Value) Swap(v any) any {
 	}
 	o := a.v
 	a.v = v
+	a.ver++
 	return o
 }
 func (a *Value) CompareAndSwap(o, n any) bool {
@@ -156,6 +173,7 @@ func (a *Value) CompareAndSwap(o, n any) bool {
 	}
 	if a.v == o {
 		a.v = n
+		a.ver++
 		return true
 	}
 	return false
